@@ -17,6 +17,8 @@ package hessian
 
 import (
 	"io"
+	"unicode"
+	"unicode/utf8"
 )
 
 func lowerName(name string) (string, error) {
@@ -28,6 +30,13 @@ func lowerName(name string) (string, error) {
 		bs[0] = byte(name[0] + _asciiGap)
 		copy(bs[1:], name[1:])
 		return string(bs), nil
+	}
+	// the first letter of a field name need not be an ASCII letter (Ärger, Étage, Ωmega): the peer's field is
+	// ärger, étage, ωmega
+	if name[0] >= utf8.RuneSelf {
+		if r, size := utf8.DecodeRuneInString(name); r != utf8.RuneError && unicode.ToLower(r) != r {
+			return string(unicode.ToLower(r)) + name[size:], nil
+		}
 	}
 	return name, nil
 }
